@@ -133,6 +133,15 @@ pub fn run(env: &Env, run: &Run) -> (Stats, Coverage) {
             check_op(env, p, Op::Enforce, s, st);
         }
     }));
+    // every canonical decomposition next to its own base character (both profiles, both operations)
+    let dfam = crate::props::rules::decomposition_family(env);
+    st.merge(run_family(&dfam, |s, st| {
+        for p in [Prof::Ucm, Prof::Ucp] {
+            check_op(env, p, Op::Prepare, s, st);
+            check_op(env, p, Op::Enforce, s, st);
+        }
+    }));
+    st.add("family:decomposition_strings", dfam.len() as u64);
     st.sample(json!({"profile": "UsernameCaseMapped", "input": ["U+FF21", "U+212A"], "expected": "Err(BadCodepoint{0x212a, 1, SpecClassDis}) - validation happens after width mapping and before case mapping"}));
     st.sample(json!({"profile": "UsernameCasePreserved", "input": ["U+FF76", "U+FF9E"], "expected": "Ok(U+30AC): width mapping then NFC composes"}));
     st.sample(json!({"profile": "UsernameCaseMapped", "input": ["U+05D0", "a"], "expected": "Err(Invalid) from the directionality rule"}));
